@@ -23,11 +23,17 @@ pub struct ExprCfg {
     pub literals_obj_arr: bool,
     pub rich_strings: bool,
     pub idents: Vec<&'static str>,
+    /// `x instanceof Ctor` (needs the constructor fields in the data object: not available inside `<template data>` bodies)
+    pub instanceof: bool,
+    /// `[...arr]` with the always-array data field as operand
+    pub spread_ident: bool,
+    /// only small number literals (a value may end up as a `wx:for` count)
+    pub small_numbers: bool,
 }
 
 impl ExprCfg {
     pub fn new(depth: u32) -> Self {
-        ExprCfg { depth, edge_numbers: true, calls: true, literals_obj_arr: true, rich_strings: true, idents: DATA_IDENTS.to_vec() }
+        ExprCfg { depth, edge_numbers: true, calls: true, literals_obj_arr: true, rich_strings: true, idents: DATA_IDENTS.to_vec(), instanceof: true, spread_ident: true, small_numbers: false }
     }
 }
 
@@ -55,7 +61,9 @@ pub fn string_value(rich: bool) -> BoxedStrategy<String> {
 }
 
 fn leaf(cfg: &ExprCfg) -> BoxedStrategy<Expr> {
-    let nums: Vec<&'static str> = if cfg.edge_numbers { NUM_LITS.iter().chain(NUM_LITS_EDGE.iter()).copied().collect() } else { NUM_LITS.to_vec() };
+    let nums: Vec<&'static str> = if cfg.small_numbers {
+        vec!["0", "1", "2", "3", "0.5", ".5", "1.5", "08", "0x2", "03", "2.", "1e0", "5e-1"]
+    } else if cfg.edge_numbers { NUM_LITS.iter().chain(NUM_LITS_EDGE.iter()).copied().collect() } else { NUM_LITS.to_vec() };
     prop_oneof![
         8 => ident_name(cfg).prop_map(Expr::Ident),
         3 => (0..nums.len()).prop_map(move |i| Expr::Num(nums[i].to_string())),
@@ -91,7 +99,7 @@ fn expr_at(cfg: &ExprCfg, depth: u32) -> BoxedStrategy<Expr> {
         (3, (unop(), sub.clone()).prop_map(|(o, a)| Expr::Unary(o, Box::new(a))).boxed()),
         (8, (binop_no_instanceof(), sub.clone(), sub.clone()).prop_map(|(o, a, b)| Expr::Binary(o, Box::new(a), Box::new(b))).boxed()),
         (
-            1,
+            if c.instanceof { 1 } else { 0 },
             (sub.clone(), 0..CTOR_IDENTS.len(), any::<bool>())
                 .prop_map(|(a, i, p)| {
                     let r = Expr::ident(CTOR_IDENTS[i]);
@@ -114,10 +122,8 @@ fn expr_at(cfg: &ExprCfg, depth: u32) -> BoxedStrategy<Expr> {
         alts.push((3, (callee, proptest::collection::vec(sub.clone(), 0..3)).prop_map(|(f, args)| Expr::Call(Box::new(f), args)).boxed()));
     }
     if c.literals_obj_arr {
-        let spread_operand = prop_oneof![
-            2 => Just(Expr::ident("arr")),
-            1 => proptest::collection::vec(sub.clone(), 0..3).prop_map(|v| Expr::Arr(v.into_iter().map(ArrItem::Item).collect())),
-        ];
+        let lit_arr = proptest::collection::vec(sub.clone(), 0..3).prop_map(|v| Expr::Arr(v.into_iter().map(ArrItem::Item).collect()));
+        let spread_operand: BoxedStrategy<Expr> = if c.spread_ident { prop_oneof![2 => Just(Expr::ident("arr")), 1 => lit_arr].boxed() } else { lit_arr.boxed() };
         let arr_item = prop_oneof![
             5 => sub.clone().prop_map(ArrItem::Item),
             2 => Just(ArrItem::Hole),
@@ -149,6 +155,6 @@ fn expr_at(cfg: &ExprCfg, depth: u32) -> BoxedStrategy<Expr> {
                 .boxed(),
         ));
     }
-    let total: Vec<(u32, BoxedStrategy<Expr>)> = alts;
+    let total: Vec<(u32, BoxedStrategy<Expr>)> = alts.into_iter().filter(|(w, _)| *w > 0).collect();
     proptest::strategy::Union::new_weighted(total).boxed()
 }
